@@ -147,10 +147,18 @@ def _float_of(v):
 
 
 class Lib:
-    def __init__(self):
+    def __init__(self, prop=None):
+        self.prop = prop        # the property whose units use this table: its own libext module takes precedence
+        self.hooks = {}
         self.np = {}
         self.mods = {}
+        self.extern = {}
         self._build()
+
+    def activate(self):
+        """install this table's engine hooks (registered by the property's own libext module) into their global cells"""
+        from . import libext
+        libext.set_hooks(self.hooks)
 
     # ------------------------------------------------------------------ registration
     def _build(self):
@@ -236,7 +244,7 @@ class Lib:
         # depended on it could not be proved equal to its specification)
         self.mods["time"] = {"time": LibFunc("time.time", lambda i: sv.fresh_real("clock"))}
         from . import libext
-        libext.load_all(self)
+        libext.load_all(self, self.prop)
 
     def _red_operand(self, interp, a):
         a = norm(a)
@@ -510,8 +518,6 @@ class Lib:
             return self.extern[key]
         raise PyRaise("unresolved-callee", f"from {base} import {attr}: no library contract")
 
-    extern = {}
-
     def builtin(self, name):
         return BUILTINS.get(name)
 
@@ -556,6 +562,18 @@ class Lib:
     def value_eq(self, interp, a, b):
         if isinstance(a, DType) or isinstance(b, DType):
             return self.dtype_eq(a, b)
+        if isinstance(b, SymSetLen):
+            a, b = b, a
+        if isinstance(a, SymSetLen) and is_conc(norm(b)) and int(norm(b)) == 1:
+            # len(set(seq)) == 1: decided only when the element at a symbolic position does not depend on the position
+            # (then the set is {that element} iff the sequence is non-empty)
+            seq = a.s.seq
+            k = sv.fresh_int("setk")
+            e_k, e_0 = seq.fn(k), seq.fn(0)
+            same = interp.py_eq(e_k, e_0)
+            if same is True or (isinstance(same, SV) and z3.is_true(z3.simplify(sv.zb(same)))):
+                return sv.cmp(">=", seq.length, 1)
+            raise EngineError("len(set(<symbolic sequence>)) == 1 with position-dependent elements")
         if isinstance(a, ClassVal) and isinstance(b, ClassVal):
             return a.name == b.name
         if isinstance(a, SymSetLen) or isinstance(b, SymSetLen):
@@ -663,7 +681,7 @@ class Lib:
             from .pandas_model import df_loc_getitem
             return df_loc_getitem(interp, obj.recv, key)
         if isinstance(obj, A.Masked):
-            raise EngineError("indexing a masked selection")
+            return A.masked_getitem(obj, key)
         raise EngineError(f"subscript of {type(obj).__name__}")
 
     def value_setitem(self, interp, obj, key, value):
@@ -818,6 +836,23 @@ class Lib:
             if isinstance(c, A.SeqVal):
                 n, fn = c.length, c.fn
                 v = args[0]
+                if isinstance(v, A.Arr):
+                    # array element appended to a symbolic-length list: at a symbolic position the element is the
+                    # index-wise merge ite(i == n, v, previous element i)
+                    vr, vshape, vdt = v.reader(), tuple(v.shape), v.dtype
+
+                    def elem(i, n=n, fn=fn, v=v, vr=vr, vshape=vshape, vdt=vdt):
+                        c = sv.cmp("==", i, n)
+                        if is_conc(c):
+                            return v if c else fn(i)
+                        old = fn(i)
+                        if not isinstance(old, A.Arr) or len(old.shape) != len(vshape):
+                            raise EngineError("list of arrays of different rank")
+                        orr = old.reader()
+                        shape = tuple(a if A.dim_eq_syntactic(a, b) else ite(c, a, b) for a, b in zip(vshape, old.shape))
+                        return A.new_arr(shape, lambda idx: ite(c, lambda: vr(idx), lambda: orr(idx)), vdt)
+                    ref.set_content(A.SeqVal(A.simp(sv.add(n, 1)), elem))
+                    return None
                 ref.set_content(A.SeqVal(A.simp(sv.add(n, 1)), lambda i, n=n, fn=fn, v=v: ite(sv.cmp("==", i, n), v, lambda: fn(i)) if sv.is_scalar(v) else (v if A.dim_eq_syntactic(i, n) else fn(i))))
                 return None
             ref.set_content(tuple(c) + (args[0],))
